@@ -430,7 +430,15 @@ func allocated(precise bool) uint64 {
 type suspicion struct{}
 
 // readAll drives one reader over s. what: 0 pcap, 1 pcapng, 2 snoop.
-func readAllHostile(c *sim.Ctx, what int, s *disk.Stream, zero bool, present int, declared uint64, mixed bool, precise bool) (out outcome, suspect bool) {
+// raise: for the classic pcap reader, the call index before which the caller
+// raises the snap length with SetSnaplen (as documented for files whose writer
+// did not truncate to its own snap length), and the new value; -1 = never.
+type raise struct {
+	at int
+	to uint32
+}
+
+func readAllHostile(c *sim.Ctx, what int, s *disk.Stream, zero bool, present int, declared uint64, mixed bool, precise bool, rs raise) (out outcome, suspect bool) {
 	budget := uint64(1<<20) + 4*(uint64(present)+declared)
 	var r rdr
 	var err error
@@ -468,6 +476,10 @@ func readAllHostile(c *sim.Ctx, what int, s *disk.Stream, zero bool, present int
 	for calls := 0; calls < 64; calls++ {
 		var d []byte
 		var ci gopacket.CaptureInfo
+		if x, ok := r.(*pcapgo.Reader); ok && calls == rs.at {
+			x.SetSnaplen(rs.to)
+			budget = uint64(1<<20) + 4*(uint64(present)+uint64(rs.to))
+		}
 		a0 := allocated(precise)
 		if zero {
 			d, ci, err = r.ZeroCopyReadPacketData()
@@ -633,18 +645,23 @@ func simC15(c *sim.Ctx) {
 	}
 	zero := c.Draw(2) == 1
 	mixed := c.Draw(2) == 1
-	c.Ev("input", int64(what), int64(kind), int64(len(data)), b2i(zero))
+	rs := raise{at: -1}
+	if what == 0 && c.Chance(200) {
+		rs = raise{at: c.Draw(5), to: uint32(4096 + c.Draw(60000))}
+		c.Fault("snaplen_raised_between_reads")
+	}
+	c.Ev("input", int64(what), int64(kind), int64(len(data)), b2i(zero), int64(rs.at), int64(rs.to))
 	run := func(s *disk.Stream) (out outcome) {
 		s.OnSpin = func(calls int) {
 			c.Fail("no-hang", "spins-at-eof", readerName(what), "reader called Read %d times after the stream had reported EOF or an error", calls)
 		}
 		cfg := *s
-		out, suspect := readAllHostile(c, what, s, zero, present, declared, mixed, false)
+		out, suspect := readAllHostile(c, what, s, zero, present, declared, mixed, false, rs)
 		if suspect {
 			c.Probe("allocation_rechecked_precisely")
 			again := cfg
 			again.OnSpin = s.OnSpin
-			out, _ = readAllHostile(c, what, &again, zero, present, declared, mixed, true)
+			out, _ = readAllHostile(c, what, &again, zero, present, declared, mixed, true, rs)
 			*s = again
 		}
 		return out
